@@ -413,3 +413,31 @@ def x13(cx: Cx, ob: Ob) -> None:
     from ..rules import no_fields_set_dependence
 
     no_fields_set_dependence(cx, ob)
+
+
+@obligation("C12-D6", "ownership of a URI prefix is decided by exact lookup (reverse_prefix_map / the records' lists), never by longest-prefix matching: remap_uri_prefixes, rewire and their helpers do not consult parse_uri / compress / is_uri / the trie", floor=2)
+def d6(cx: Cx, ob: Ob) -> None:
+    from ..summ import KNOWN_FUNCTIONS
+
+    todo = [f"{RECON}.remap_uri_prefixes", f"{RECON}.rewire"]
+    seen = set()
+    while todo:
+        q = todo.pop()
+        if q in seen or q not in cx.model.functions:
+            continue
+        seen.add(q)
+        fn = cx.model.functions[q]
+        s = cx.summary(fn, ob.id)
+        ob.site(f"{fn.where} {fn.qualname}", "no prefix matching")
+        for t, ev, ctx in s.all_terms():
+            for c in subterms(t):
+                if op(c) == "func" and c[1].startswith(RECON + ".") and c[1] not in KNOWN_FUNCTIONS:
+                    todo.append(c[1])
+                if op(c) == "call" and op(c[1]) == "attr" and (c[1][2] in ("parse_uri", "compress", "is_uri", "standardize_uri", "compress_strict") or (op(c[1][1]) == "attr" and c[1][1][2] == "trie")):
+                    ob.violate(
+                        fn.qualname,
+                        where(fn, ev.line),
+                        f"{fn.name} asks `{show(c)[:50]}` who owns a URI prefix: that is a LONGEST-PREFIX match, so a new URI prefix that merely extends another record's URI prefix counts as owned by that record and the mapping is silently skipped",
+                        witness="records obo -> http://purl.obolibrary.org/obo/ and go; rewire {'go': 'http://purl.obolibrary.org/obo/GO_'} is skipped",
+                        detail="prefix-match-as-ownership",
+                    )
